@@ -31,9 +31,9 @@ CLAIM = dict(
           "ends the history."),
     technique="Lean 4 theorems over a hand-written model + differential correspondence on histories + Lean spec predicates as oracle")
 
-THEOREMS = ["inv_init", "inv_addField", "inv_call", "inv_assignFields",
-            "assign_disjoint", "wide_enough", "readback", "mask_exact", "tag_closed",
-            "orthogonal", "reject_explicit"]
+THEOREMS = ["max_value_default", "inv_init", "inv_addField", "inv_call", "inv_assignFields", "reachable_inv",
+            "assign_disjoint", "enabled_disjoint", "scope_unique", "wide_enough", "call_rejects_wide",
+            "reject_explicit_overflow", "reject_explicit"]
 
 RULE = ("histories of 6-40 operations generated against the running implementation (mostly valid: names a-h, values 0-3 "
         "that open sibling scopes, lengths None/1-5, explicit positions incl. the top bit, tags, assign_fields in the middle "
